@@ -17,6 +17,35 @@ UNOPS = [("NEG", "-"), ("POS", "+"), ("NOT", "~"), ("BNOT", "not ")]
 BUILTINS1 = ["strlen", "upper", "lower", "trim", "str", "int", "b64enc", "hash", "hex", "chr", "raw", "isnum"]
 
 
+# ---------------------------------------------------------------- built-ins of two and more arguments (family builtin_arg_sources)
+# name -> signatures (one letter per argument: d decimal, i integer, s string, b boolean, r bytes). Names and arities are checked
+# against lean/BlocV/Gen/Sigs.lean (generated from the parse() methods) in `multi_arg_builtins`; max / min / mod / pow have hand-written
+# parse() methods and are listed here; `input` / `read` store into their first argument by design (output parameter) and need a
+# terminal / a file; `tab` / `tup` are constructors (families construct, arg_forms).
+BI_SIGS = {
+    "atan2": ["dd"], "max": ["dd", "ii"], "min": ["dd", "ii"], "mod": ["dd", "ii"], "pow": ["dd", "ii"], "clamp": ["ddd", "iii"],
+    "round": ["di"], "hex": ["ii"], "hash": ["si"], "raw": ["ii"], "substr": ["si", "sii"], "lsubstr": ["si"], "rsubstr": ["si"],
+    "subraw": ["ri", "rii"], "strpos": ["ss", "ssi"], "replace": ["sss"], "tokenize": ["ss", "ssb"],
+}
+BI_NOT_IN_SIGS = ("max", "min")          # variadic-looking custom parse(): not in the generated table
+BI_VALUES = {"d": ["D:4004000000000000", "D:3ff8000000000000", "D:4000000000000000"], "i": ["I:7", "I:2", "I:3"],
+             "s": ["S:" + b"hay,stack".hex(), "S:" + b",".hex(), "S:" + b";".hex()], "b": ["B:1", "B:1", "B:1"]}
+BI_SOURCES = ("var", "elem", "item", "cst", "op", "idf")
+BI_STORED = ("var", "elem", "item", "cst")
+
+
+def multi_arg_builtins():
+    """(name, max arity) of every built-in with two or more argument slots in the generated signature table"""
+    import os
+    txt = open(os.path.join(os.path.dirname(__file__), "..", "..", "lean", "BlocV", "Gen", "Sigs.lean")).read()
+    out = {}
+    for m in re.finditer(r'^  \("(\w+)", \[(.*)\]\),?$', txt, re.M):
+        k = m.group(2).count("optional :=")
+        if k >= 2:
+            out[m.group(1)] = k
+    return out
+
+
 # ---------------------------------------------------------------- storage-level family (Model/StoreX.lean via DrvC05.lean)
 INPLACE = ("concat", "put", "insert", "delete")
 C05_FINDINGS = [
@@ -347,6 +376,65 @@ class C05(ProgCheck):
             for pl in pls:
                 addx([("do", ("setitem", V("U"), idx, pl))], kind_of(pl), "none")
                 addx([("do", ("setitem", M("at", V("TU"), ("bin", "SUB", V("P1"), I(1))), idx, pl))], kind_of(pl), "computed")
+        # (7) EVERY built-in of two and more arguments x every pattern of argument sources (variable, table element, tuple item,
+        # constant literal, operator temporary, function-result temporary): `r = f(…)` parsed once and run three times, deep dump of
+        # every variable after each run compared with the storage model (`XExpr.bi`, placement table `biPlace`), plus the property
+        # oracle of judge_x (only the target may change; the same statement from an equal read-state gives equal results: that is how a
+        # clobbered CONSTANT node shows). A result written into a stored first / second / third argument is model != library.
+        sigs_gen = multi_arg_builtins()
+        missing = sorted(set(sigs_gen) - set(BI_SIGS) - {"tab", "tup"})
+        assert not missing, "built-ins of arity >= 2 without an entry in BI_SIGS: %s" % missing
+        for nm, sg in BI_SIGS.items():
+            assert nm in BI_NOT_IN_SIGS or max(len(x) for x in sg) == sigs_gen.get(nm), (nm, sg, sigs_gen.get(nm))
+        bs = self.xstats.setdefault("builtin_arg_sources", {"cases": 0, "builtins": {}, "patterns": {}, "stored_temp_pairs": {}})
+        NEUTRAL = {"d": ("ADD", L("D:0000000000000000")), "i": ("ADD", I(0)), "s": ("ADD", S("")), "b": ("BAND", L("B:1"))}
+
+        def arg_src(t, k, how):
+            """expression for argument k of type t taken from source `how`, or None when that source does not exist for the type"""
+            if t == "r":        # bytes: no literal, no operator: variable, element of a table of bytes, function result
+                return {"var": V("A%d" % k), "elem": M("at", V("T%d" % k), I(1)), "idf": IDFX(V("A%d" % k))}.get(how)
+            v = L(BI_VALUES[t][k])
+            return {"var": V("A%d" % k), "elem": M("at", V("T%d" % k), I(1)), "item": ("item", V("U%d" % k), 1), "cst": v,
+                    "op": ("bin", NEUTRAL[t][0], V("A%d" % k), NEUTRAL[t][1]), "idf": IDFX(V("A%d" % k))}[how]
+
+        def bi_setup(sig):
+            st = []
+            for k, t in enumerate(sig):
+                init = ("call", "raw", [S("hay,stack")]) if t == "r" else L(BI_VALUES[t][k])
+                st.append(("let", "A%d" % k, init))
+                st.append(("let", "T%d" % k, ("call", "tab", [I(2), V("A%d" % k) if t == "r" else init])))
+                if t != "r":
+                    st.append(("let", "U%d" % k, ("call", "tup", [init, I(0)])))
+            return st
+
+        for name, sgs in BI_SIGS.items():
+            for sig in sgs:
+                ar = len(sig)
+                if ar == 2 or not quick:
+                    pats = list(itertools.product(BI_SOURCES, repeat=ar))
+                else:
+                    pats = set(itertools.product(("var", "cst", "op"), repeat=3))
+                    for i, j in itertools.permutations(range(3), 2):      # every ordered position pair (stored, temporary)
+                        for a, b in itertools.product(BI_STORED, ("op", "idf")):
+                            q = ["var"] * 3
+                            q[i], q[j] = a, b
+                            pats.add(tuple(q))
+                    pats = sorted(pats)
+                for pat in pats:
+                    args = [arg_src(t, k, how) for k, (t, how) in enumerate(zip(sig, pat))]
+                    if any(a is None for a in args):
+                        continue
+                    n += 1
+                    cases.append(self.xcase("x%d" % n, funcs, [(0, bi_setup(sig)), (1, [("let", "R", ("call", name, args))])], [0, 1, 1, 1],
+                                            {"family": "builtin_arg_sources", "builtin": name, "pattern": "/".join(pat)}))
+                    bs["cases"] += 1
+                    bs["builtins"][name] = bs["builtins"].get(name, 0) + 1
+                    cls = "".join("S" if h in BI_STORED else "T" for h in pat)
+                    bs["patterns"][cls] = bs["patterns"].get(cls, 0) + 1
+                    for i, j in itertools.permutations(range(ar), 2):
+                        if pat[i] in BI_STORED and pat[j] not in BI_STORED:
+                            key = "%d:stored,%d:temp" % (i, j)
+                            bs["stored_temp_pairs"][key] = bs["stored_temp_pairs"].get(key, 0) + 1
         # (5) a held element reference whose variable is changed by a later operand (dangling): model = hazard oob
         for e in [M("put", M("at", V("TT"), I(0)), I(0), M("count", M("concat", M("concat", V("TT"), V("TT")), V("TT")))),
                   ("bin", "ADD", M("at", M("at", V("TT"), I(1)), I(0)), M("count", M("concat", M("concat", M("concat", V("TT"), V("TT")), V("TT")), V("TT")))),
@@ -373,6 +461,13 @@ class C05(ProgCheck):
         pro, body = parts[:len(parts) - 2 * nrun - 1], parts[len(parts) - 2 * nrun - 1:]
         if any(not q.startswith("ok") for q in pro):
             self.xstats["rejected_by_parser"] += 1
+            rf = self.xstats.setdefault("rejected_by_family", {})
+            rf[c.meta["family"]] = rf.get(c.meta["family"], 0) + 1
+            if c.meta["family"] == "builtin_arg_sources":
+                rb = self.xstats.setdefault("rejected_builtins", {})
+                kk = "%s %s: %s" % (c.meta["builtin"], c.meta["pattern"], next(q for q in pro if not q.startswith("ok")))
+                if len(rb) < 12:
+                    rb[kk] = 1
             self.tally(c, next(q for q in pro if not q.startswith("ok")), m)
             return
         strip = lambda v: strip_flags(v[:-2]) + v[-2:]
